@@ -199,11 +199,16 @@ def _replace_returns(stmts, make):
 
 
 def _count_returns(stmts):
+  """`return` statements of this scope (nested definitions have their own)."""
   n = 0
-  for st in stmts:
-    for x in ast.walk(st):
-      if isinstance(x, ast.Return):
-        n += 1
+  stack = list(stmts)
+  while stack:
+    x = stack.pop()
+    if isinstance(x, FN + (ast.ClassDef, ast.Lambda)):
+      continue
+    if isinstance(x, ast.Return):
+      n += 1
+    stack.extend(ast.iter_child_nodes(x))
   return n
 
 
@@ -560,6 +565,12 @@ def _rewrite_exitstack(body_list):
     if isinstance(st, ast.With) and len(st.items) == 1 and _is_exitstack(st.items[0]):
       s = st.items[0].optional_vars.id
       inner = list(st.body)
+      # statements before the first registration that do not touch the stack run before the protected region
+      pre = []
+      while inner and not any(isinstance(n, ast.Name) and n.id == s for n in ast.walk(inner[0])) \
+          and any(isinstance(n, ast.Name) and n.id == s for x in inner[1:] for n in ast.walk(x)) \
+          and isinstance(inner[0], (ast.Expr, ast.Assign, ast.AugAssign)):
+        pre.append(inner.pop(0))
       # the stack variable must only be used by leading callback / enter_context statements
       lead = []
       while inner:
@@ -584,7 +595,7 @@ def _rewrite_exitstack(body_list):
         for n in new:
           ast.copy_location(n, st)
           ast.fix_missing_locations(n)
-        body_list[i:i + 1] = new
+        body_list[i:i + 1] = pre + new
         changed += 1
         continue
     i += 1
@@ -1004,12 +1015,15 @@ def _thread_flags(fn, body_list):
 
 def loop_forms(tree):
   n = 0
+  # module-level functions that end in `raise` never return
+  noret = {st.name for st in getattr(tree, 'body', []) if isinstance(st, ast.FunctionDef) and st.body and isinstance(st.body[-1], ast.Raise)}
   for _ in range(3):
     c = 0
     for fn, body in _scoped_bodies(tree):
       c += _rewrite_index_while(fn, body)
       c += _rewrite_append_loop(fn, body)
       c += _thread_flags(fn, body)
+      c += _rewrite_for_genexp(fn, body, noret)
     n += c
     if not c:
       break
@@ -1223,12 +1237,32 @@ def _inline_one(fn, refnames, params):
       if not (isinstance(st, ast.Assign) and len(st.targets) == 1 and isinstance(st.targets[0], ast.Name)):
         continue
       t = st.targets[0].id
-      if t in refnames or t in params or t.startswith('__') or store_count.get(t, 0) != 1 or t in nested_names:
+      if t in refnames or t in params or t.startswith('__') or store_count.get(t, 0) != 1:
         continue
       # comprehension targets are counted as stores by ast (Store ctx): a clash means shadowing
       if t in comp_targets:
         continue
       E = st.value
+      if t in nested_names:
+        # mode C: a time-independent value of names that are never re-bound may be substituted into nested scopes as well
+        stable = isinstance(E, (ast.Name, ast.Constant)) or (isinstance(E, ast.Call) and isinstance(E.func, ast.Name) and E.func.id == 'type'
+                                                            and len(E.args) == 1 and isinstance(E.args[0], ast.Name) and not E.keywords)
+        enames = _all_names(E) - {'type'}
+        rebinds = any(isinstance(n, ast.Name) and n.id in (enames | {t}) and isinstance(n.ctx, (ast.Store, ast.Del)) and n is not st.targets[0]
+                      for n in ast.walk(fn))
+        if not stable or rebinds or not enames <= params:
+          continue
+
+        class SubAll(ast.NodeTransformer):
+          def visit_Name(self, n):
+            if n.id == t and isinstance(n.ctx, ast.Load):
+              return ast.copy_location(copy.deepcopy(E), n)
+            return n
+        for i in range(k + 1, len(body)):
+          body[i] = SubAll().visit(body[i])
+        del body[k]
+        ast.fix_missing_locations(fn)
+        return True
       loads = [n for n in own if isinstance(n, ast.Name) and n.id == t and isinstance(n.ctx, ast.Load)]
       if not loads:
         continue
@@ -1387,6 +1421,115 @@ class _ExprForms(ast.NodeTransformer):
       ast.fix_missing_locations(n)
     return n
 
+  def visit_Compare(self, n):
+    self.generic_visit(n)
+    # x in (*A, *B) / x in A + B   ->   x in A or x in B       (and the `not in` dual)
+    if len(n.ops) == 1 and isinstance(n.ops[0], (ast.In, ast.NotIn)):
+      c = n.comparators[0]
+      parts = None
+      if isinstance(c, (ast.Tuple, ast.List)) and len(c.elts) >= 2 and all(isinstance(e, ast.Starred) for e in c.elts):
+        parts = [e.value for e in c.elts]
+      elif isinstance(c, ast.BinOp) and isinstance(c.op, ast.Add):
+        parts, stack = [], [c]
+        while stack:
+          x = stack.pop(0)
+          if isinstance(x, ast.BinOp) and isinstance(x.op, ast.Add):
+            stack[0:0] = [x.left, x.right]
+          elif isinstance(x, ast.Call) and isinstance(x.func, ast.Name) and x.func.id in ('list', 'tuple') and len(x.args) == 1:
+            parts.append(x.args[0])
+          else:
+            parts.append(x)
+        if any(isinstance(x, ast.Constant) for x in parts):
+          parts = None
+      if parts and _pure(n.left):
+        op = type(n.ops[0])
+        vals = [ast.Compare(left=copy.deepcopy(n.left), ops=[op()], comparators=[p_]) for p_ in parts]
+        new = ast.BoolOp(op=ast.Or() if op is ast.In else ast.And(), values=vals)
+        ast.copy_location(new, n)
+        ast.fix_missing_locations(new)
+        self.n += 1
+        return new
+    return n
+
+
+def _rewrite_for_genexp(fn, body_list, noret=()):
+  """for T in (x for x in IT if C): BODY      ->  for x in IT: if C: BODY[T:=x]
+     S = object(); t = next((x for x in IT if C), S); if t is not S: BODY   ->  for t in IT: if C: BODY; break"""
+  changed = 0
+  for i, st in enumerate(body_list):
+    if isinstance(st, ast.For) and not st.orelse and isinstance(st.iter, ast.GeneratorExp) and len(st.iter.generators) == 1 \
+        and isinstance(st.target, ast.Name):
+      ge = st.iter
+      gen = ge.generators[0]
+      if isinstance(gen.target, ast.Name) and isinstance(ge.elt, ast.Name) and ge.elt.id == gen.target.id and gen.ifs \
+          and not _has_continue(st.body):
+        x, T = gen.target.id, st.target.id
+        ifs = gen.ifs
+        if x != T:
+          sub = _Subst({x: ast.Name(id=T, ctx=ast.Load())}, {})
+          ifs = [sub.visit(copy.deepcopy(c)) for c in ifs]
+        test = ifs[0] if len(ifs) == 1 else ast.BoolOp(op=ast.And(), values=ifs)
+        st.iter = gen.iter
+        st.body = [ast.copy_location(ast.If(test=test, body=st.body, orelse=[]), st)]
+        ast.fix_missing_locations(st)
+        changed += 1
+  k = 0
+  while k + 1 < len(body_list):
+    a, b = body_list[k], body_list[k + 1]
+    k += 1
+    if not (isinstance(a, ast.Assign) and len(a.targets) == 1 and isinstance(a.targets[0], ast.Name) and isinstance(a.value, ast.Call)
+            and isinstance(a.value.func, ast.Name) and a.value.func.id == 'next' and len(a.value.args) == 2
+            and isinstance(a.value.args[0], ast.GeneratorExp) and isinstance(b, ast.If) and not b.orelse):
+      continue
+    t, S, ge = a.targets[0].id, a.value.args[1], a.value.args[0]
+    if not (isinstance(b.test, ast.Compare) and len(b.test.ops) == 1 and isinstance(b.test.ops[0], ast.IsNot) and ast.unparse(b.test.left) == t
+            and ast.unparse(b.test.comparators[0]) == ast.unparse(S)):
+      continue
+    if fn is None or _used_after(fn, b, t):
+      continue
+    # the sentinel can never be an element
+    if isinstance(S, ast.Name):
+      sdefs = [n for n in ast.walk(fn) if isinstance(n, ast.Assign) and len(n.targets) == 1 and ast.unparse(n.targets[0]) == S.id]
+      if len(sdefs) != 1 or ast.unparse(sdefs[0].value) != 'object()':
+        continue
+    elif not (isinstance(S, ast.Constant) and S.value is None and isinstance(ge.elt, ast.Tuple)):
+      continue
+    gens = ge.generators
+    nested = len(gens) > 1
+    last = b.body[-1] if b.body else None
+    ends = isinstance(last, (ast.Raise, ast.Return)) or (isinstance(last, ast.Expr) and isinstance(last.value, ast.Call)
+                                                       and isinstance(last.value.func, ast.Name) and last.value.func.id in noret)
+    if nested and not ends:
+      continue            # `break` would only leave the innermost loop
+    simple = len(gens) == 1 and isinstance(gens[0].target, ast.Name) and isinstance(ge.elt, ast.Name) and ge.elt.id == gens[0].target.id
+    if simple:
+      sub = _Subst({gens[0].target.id: ast.Name(id=t, ctx=ast.Load())}, {})
+      ifs = [sub.visit(copy.deepcopy(c)) for c in gens[0].ifs]
+      inner = list(b.body) + ([] if ends else [ast.Break()])
+      if ifs:
+        inner = [ast.If(test=ifs[0] if len(ifs) == 1 else ast.BoolOp(op=ast.And(), values=ifs), body=inner, orelse=[])]
+      new = ast.For(target=ast.Name(id=t, ctx=ast.Store()), iter=gens[0].iter, body=inner, orelse=[])
+    else:
+      bound = set()
+      for g_ in gens:
+        bound |= {n.id for n in ast.walk(g_.target) if isinstance(n, ast.Name)}
+      inner = [ast.Assign(targets=[ast.Name(id=t, ctx=ast.Store())], value=ge.elt)] + list(b.body) + ([] if ends else [ast.Break()])
+      new = None
+      for g_ in reversed(gens):
+        if g_.ifs:
+          inner = [ast.If(test=g_.ifs[0] if len(g_.ifs) == 1 else ast.BoolOp(op=ast.And(), values=list(g_.ifs)), body=inner, orelse=[])]
+        new = ast.For(target=g_.target, iter=g_.iter, body=inner, orelse=[])
+        inner = [new]
+      # comprehension variables become loop variables of the function: they must not clash with names read later
+      if any(_used_after(fn, b, nm) for nm in bound):
+        continue
+    ast.copy_location(new, a)
+    ast.fix_missing_locations(new)
+    k -= 1
+    body_list[k:k + 2] = [new]
+    changed += 1
+  return changed
+
 
 def _rewrite_inplace_sort(body_list):
   """x = <fresh list>; x.sort(**kw)   ->   x = sorted(<...>, **kw)"""
@@ -1409,6 +1552,97 @@ def _rewrite_inplace_sort(body_list):
     del body_list[k]
     k -= 1
     changed += 1
+  return changed
+
+
+def _rewrite_result_var(body_list):
+  """if c: ...; v = A  else: ...; v = B  ;  return v      ->   if c: ...; return A  else: ...; return B"""
+  changed = 0
+  k = 0
+  while k + 1 < len(body_list):
+    a, r = body_list[k], body_list[k + 1]
+    k += 1
+    if not (isinstance(a, ast.If) and a.orelse and isinstance(r, ast.Return) and isinstance(r.value, ast.Name)):
+      continue
+    v = r.value.id
+
+    def ok(stmts):
+      if not stmts:
+        return False
+      last = stmts[-1]
+      if isinstance(last, (ast.Raise, ast.Return)):
+        return True
+      if isinstance(last, ast.Assign) and len(last.targets) == 1 and isinstance(last.targets[0], ast.Name) and last.targets[0].id == v:
+        return True
+      if isinstance(last, ast.If) and last.orelse:
+        return ok(last.body) and ok(last.orelse)
+      return False
+
+    if not (ok(a.body) and ok(a.orelse)):
+      continue
+
+    def push(stmts):
+      last = stmts[-1]
+      if isinstance(last, ast.Assign):
+        stmts[-1] = ast.copy_location(ast.Return(value=last.value), last)
+      elif isinstance(last, ast.If):
+        push(last.body)
+        push(last.orelse)
+    push(a.body)
+    push(a.orelse)
+    ast.fix_missing_locations(a)
+    del body_list[k]
+    k -= 1
+    changed += 1
+  return changed
+
+
+def _rewrite_setdefault_store(body_list):
+  """D.setdefault(K, V)[A] = X     ->   t = D.setdefault(K, V); t[A] = X"""
+  changed = 0
+  i = 0
+  while i < len(body_list):
+    st = body_list[i]
+    if isinstance(st, ast.Assign) and len(st.targets) == 1 and isinstance(st.targets[0], ast.Subscript) \
+        and isinstance(st.targets[0].value, ast.Call) and isinstance(st.targets[0].value.func, ast.Attribute) \
+        and st.targets[0].value.func.attr == 'setdefault':
+      tmp = '__sd%d_%d' % (getattr(st, 'lineno', 0), getattr(st, 'col_offset', 0))
+      a = ast.Assign(targets=[ast.Name(id=tmp, ctx=ast.Store())], value=st.targets[0].value)
+      ast.copy_location(a, st)
+      st.targets[0].value = ast.Name(id=tmp, ctx=ast.Load())
+      ast.fix_missing_locations(a)
+      ast.fix_missing_locations(st)
+      body_list.insert(i, a)
+      changed += 1
+      i += 2
+      continue
+    i += 1
+  return changed
+
+
+def _drop_dead_code(body_list):
+  """Statements after an unconditional raise / return / break / continue never run."""
+  for i, st in enumerate(body_list):
+    if isinstance(st, (ast.Raise, ast.Return, ast.Break, ast.Continue)) and i + 1 < len(body_list):
+      if any(isinstance(x, FN + (ast.ClassDef,)) for x in body_list[i + 1:]):
+        return 0
+      del body_list[i + 1:]
+      return 1
+  return 0
+
+
+def _rewrite_nested_if(body_list):
+  """if a: if b: X   (no else on either)   ->   if a and b: X"""
+  changed = 0
+  for st in body_list:
+    while isinstance(st, ast.If) and not st.orelse and len(st.body) == 1 and isinstance(st.body[0], ast.If) and not st.body[0].orelse:
+      inner = st.body[0]
+      vals = (st.test.values if isinstance(st.test, ast.BoolOp) and isinstance(st.test.op, ast.And) else [st.test]) + \
+             (inner.test.values if isinstance(inner.test, ast.BoolOp) and isinstance(inner.test.op, ast.And) else [inner.test])
+      st.test = ast.copy_location(ast.BoolOp(op=ast.And(), values=list(vals)), st.test)
+      st.body = inner.body
+      ast.fix_missing_locations(st)
+      changed += 1
   return changed
 
 
@@ -1460,6 +1694,10 @@ def idioms(tree):
       c += _rewrite_flag_chain(body)
       c += _rewrite_star_unpack(body)
       c += _rewrite_inplace_sort(body)
+      c += _rewrite_nested_if(body)
+      c += _drop_dead_code(body)
+      c += _rewrite_setdefault_store(body)
+      c += _rewrite_result_var(body)
     n += c
     if not c:
       break
@@ -1675,9 +1913,57 @@ def lifted_candidates(tree, modname, table=None):
   return out
 
 
+def match_reference_shape(tree, modname, table=None):
+  """`x = A if c else B`  <->  `if c: x = A / else: x = B`, whichever of the two the reference tree uses for x."""
+  table = table if table is not None else _load_table()
+  ref_mod = table.get(modname)
+  if not ref_mod:
+    return 0
+  from .canon import _functions
+  n = 0
+  for q, fn in _functions(tree, modname):
+    ref = ref_mod.get(q)
+    if ref is None:
+      continue
+    shape = {}
+    for name, fp in ref:
+      if fp.startswith('assign:'):
+        try:
+          e = ast.parse(fp[len('assign:'):], mode='eval').body
+        except SyntaxError:
+          continue
+        shape[name] = 'ifexp' if isinstance(e, ast.IfExp) else 'plain'
+    for _fn, body in _scoped_bodies(fn):
+      if _fn is not None and _fn is not fn:
+        continue
+      i = 0
+      while i < len(body):
+        st = body[i]
+        if isinstance(st, ast.Assign) and len(st.targets) == 1 and isinstance(st.targets[0], ast.Name) and isinstance(st.value, ast.IfExp) \
+            and shape.get(st.targets[0].id) == 'plain':
+          v = st.value
+          new = ast.If(test=v.test, body=[ast.Assign(targets=[copy.deepcopy(st.targets[0])], value=v.body)],
+                       orelse=[ast.Assign(targets=[copy.deepcopy(st.targets[0])], value=v.orelse)])
+          ast.copy_location(new, st)
+          ast.fix_missing_locations(new)
+          body[i] = new
+          n += 1
+        elif isinstance(st, ast.If) and len(st.body) == 1 and len(st.orelse) == 1 and all(
+            isinstance(x, ast.Assign) and len(x.targets) == 1 and isinstance(x.targets[0], ast.Name) for x in (st.body[0], st.orelse[0])) \
+            and st.body[0].targets[0].id == st.orelse[0].targets[0].id and shape.get(st.body[0].targets[0].id) == 'ifexp':
+          new = ast.Assign(targets=[st.body[0].targets[0]], value=ast.IfExp(test=st.test, body=st.body[0].value, orelse=st.orelse[0].value))
+          ast.copy_location(new, st)
+          ast.fix_missing_locations(new)
+          body[i] = new
+          n += 1
+        i += 1
+  return n
+
+
 def post_canon(tree, modname):
   """Second stage, run after the local names were mapped back to the reference names."""
   a = inline_temps(tree, modname)
+  a += match_reference_shape(tree, modname)
   b = loop_forms(tree)
   c = idioms(tree) if (a or b) else 0
   ast.fix_missing_locations(tree)
